@@ -558,6 +558,30 @@ def run(sh):
                              dict(case, segments=segs), engine='repro')
             else:
                 sh.count('split_runs_equal')
+            # ... and exactly at an instant at which two operations of the user's are due at priorities BELOW the end
+            # marker's (they are left for the next run), the first of which sets off a hand-over at normal priority
+            cand = [it['id'] for it in spec['items'] if it['kind'] in ('handler', 'processor', 'buffer') and it.get('up')
+                    and not it.get('group')]
+            if cand and total > 4:
+                import copy as _copy
+                dsub = rng.choice(cand)
+                tsub = rng.randrange(12, int((total - 2) * 8)) / 8.0
+                spec2 = _copy.deepcopy(spec)
+                spec2['script'] = sorted(spec2.get('script', []) + [
+                    {'t': tsub - 1, 'prio': 5, 'op': 'block', 'target': dsub},
+                    {'t': tsub, 'prio': 0.75, 'op': 'unblock', 'target': dsub},
+                    {'t': tsub, 'prio': 0.5, 'op': 'block', 'target': dsub},
+                    {'t': tsub + 1.5, 'prio': 5, 'op': 'unblock', 'target': dsub}], key=lambda e: e['t'])
+                u2, _, _ = run_model(spec2, seed, [total], 'keyed')
+                s2, _, _ = run_model(spec2, seed, [tsub, total - tsub], 'keyed')
+                if u2 != s2:
+                    sh.violation('split_differs', f'split at {tsub}, where {dsub} is opened (priority 0.75) and closed again '
+                                 f'(priority 0.5) below the end marker\'s priority, differs from the unsplit run: '
+                                 f'{first_diff(u2, s2)}', dict(case, spec=spec2, segments=[tsub, total - tsub]),
+                                 engine='repro')
+                else:
+                    sh.count('split_runs_equal')
+                    sh.count('splits_at_operations_below_the_end_markers_priority')
             ku, _, _ = run_model(spec, seed + 7, [total], 'keyed')
             if ku != u:
                 sh.count('keyed_models_where_other_seed_differs')
